@@ -23,10 +23,13 @@ import (
 	"time"
 
 	"github.com/go-critic/go-critic/checkers/rulesdata"
+	"github.com/go-critic/go-critic/linter"
+	"github.com/quasilyte/go-ruleguard/ruleguard/ir"
 
 	"verifharness/internal/common"
 	"verifharness/internal/coqfmt"
 	"verifharness/internal/exprgen"
+	"verifharness/internal/valdiff"
 )
 
 func Run(tier string, seed int64, outDir string) *common.Meta {
@@ -40,6 +43,7 @@ func Run(tier string, seed int64, outDir string) *common.Meta {
 	runNilValReturn(meta, seed, outDir)
 	runRuleTable(meta, outDir)
 	runShadowed(meta, seed, outDir)
+	runSynthClaims(meta, outDir)
 	meta.Rule = "distinct_nontrivial = number of distinct generated expressions / type switches on which at least one of the claim-producing checkers fired (each compared with the model matcher in Coq and executed with instrumentation)"
 	return meta
 }
@@ -67,7 +71,26 @@ func genClaimExpr(g *exprgen.G, r interface{ Intn(int) int }) string {
 		return pick("0", "1", "2", "5", "7", "9", "10", "-3", "2 - 1", "(4)", "3 + 4", "0x10", "010")
 	}
 	var e string
-	switch n := r.Intn(100); {
+	switch n := r.Intn(108); {
+	case n >= 100: // bound pairs on an operand that a conjunct in between can change
+		type mo struct{ x, mut string }
+		m := []mo{{"w.avail", "w.refill()"}, {"gn", "bumpG()"}, {"a", "func() bool { a = 9; return true }()"},
+			{"xs[0]", "func() bool { if len(xs) > 0 { xs[0] = 9 }; return true }()"}, {"b", "func() bool { b--; return true }()"}}[r.Intn(5)]
+		lo, hi := pick("<", "<", "<="), pick(">", ">", ">=")
+		base := []int{0, 1, 2, 5}[r.Intn(4)]
+		d := []int{1, 2, 5, 6, 0, -1}[r.Intn(6)]
+		mid := pick(m.mut, m.mut, "k", "fb()")
+		l, rr := m.x+" "+lo+" "+strconv.Itoa(base), m.x+" "+hi+" "+strconv.Itoa(base+d)
+		switch r.Intn(4) {
+		case 0:
+			e = l + " && " + mid + " && " + rr
+		case 1:
+			e = l + " && (" + mid + " && " + rr + ")"
+		case 2:
+			e = "(" + l + " && " + mid + ") && " + rr
+		default:
+			e = l + " && " + pick("k", "l") + " && " + mid + " && " + rr
+		}
 	case n < 22: // sloppyLen
 		x := pick("s", "xs", "bs", "t", "fs()", "fxs()", "s + t", "xs[:]", "[]byte(s)", "string(bs)", "ms", "mi", "mm", "ma", "pa", "w.buf")
 		e = "len(" + x + ") " + pick(">= 0", "< 0", ">= 0", "< 0", "<= 0", ">= 1", "> 0", "< 1", ">= 00", "< 0x0", "== 0") + ""
@@ -112,6 +135,12 @@ func genClaimExpr(g *exprgen.G, r interface{ Intn(int) int }) string {
 				x2 = intX()
 			}
 		}
+		if !isF && r.Intn(2) == 0 {
+			// operands that a call can change: a struct field, a package variable, a slice element, a local
+			// captured by a closure
+			x = pick("w.avail", "gn", "xs[0]", "a", "w.avail")
+			x2 = x
+		}
 		l, rr := x+" "+o1+" "+c1, x2+" "+o2+" "+c2
 		if r.Intn(6) == 0 {
 			l = "(" + l + ")"
@@ -120,6 +149,26 @@ func genClaimExpr(g *exprgen.G, r interface{ Intn(int) int }) string {
 			rr = "(" + rr + ")"
 		}
 		e = l + " && " + rr
+		if r.Intn(3) == 0 {
+			// chains of three and more conjuncts: pure, impure and MUTATING conjuncts between (and around) the
+			// two comparisons; a mutating conjunct preferably changes the very operand that is compared
+			mutators := map[string]string{"w.avail": "w.refill()", "gn": "bumpG()", "a": "func() bool { a = 9; return true }()",
+				"xs[0]": "func() bool { if len(xs) > 0 { xs[0] = 9 }; return true }()"}
+			mid := pick("k", "fb()", "a > b", "w.refill()", "bumpG()", "func() bool { a = 9; return true }()")
+			if mu, ok := mutators[x]; ok && x == x2 && r.Intn(3) > 0 {
+				mid = mu
+			}
+			switch r.Intn(4) {
+			case 0:
+				e = l + " && " + mid + " && " + rr
+			case 1:
+				e = l + " && (" + mid + " && " + rr + ")"
+			case 2:
+				e = mid + " && " + l + " && " + rr
+			default:
+				e = l + " && " + mid + " && " + pick("k", "l", "fb()") + " && " + rr
+			}
+		}
 	case n < 65: // offBy1
 		// indexed operands of every kind: slices, strings, defined slice/string/map types, arrays and
 		// pointers to arrays (rejected by the type checker when the index is a constant out of range),
@@ -435,7 +484,9 @@ func runExprClaims(meta *common.Meta, seed int64, outDir string, n int) {
 	for _, m := range mm {
 		f := m.Case.Tag.(flagged)
 		class := "unclassified"
-		if impureCallRe.MatchString(m.Case.Orig) {
+		if mutatingRe.MatchString(m.Case.Orig) {
+			class = "mutating-conjunct"
+		} else if impureCallRe.MatchString(m.Case.Orig) {
 			class = "impure-operand"
 		} else if f.checker == "offBy1" {
 			if ix, ok := findFlagged(l, rets[f.c.fn], f.pos, f.checker, f.text).(*ast.IndexExpr); ok {
@@ -455,9 +506,10 @@ func runExprClaims(meta *common.Meta, seed int64, outDir string, n int) {
 	}
 }
 
-var outsideFragmentRe = regexp.MustCompile(`\b(ms|mi|mm|ma|pa|w|gxs|fa|mc|mc2|mf|mg|fmf|vv|it|val)\b`)
+var outsideFragmentRe = regexp.MustCompile(`\b(ms|mi|mm|ma|pa|w|gxs|fa|mc|mc2|mf|mg|fmf|vv|it|val|gn|bumpG|func)\b`)
 
 var impureCallRe = regexp.MustCompile(`\b(fi|gi|hi|fu|ff|hf|fs|fb|fbs|fxs|fmf|Next)\(`)
+var mutatingRe = regexp.MustCompile(`refill\(\)|bumpG\(\)|func\(\) bool`)
 
 // findFlagged locates the expression a diagnostic is about: the outermost node of the right kind starting at pos.
 func findFlagged(l *exprgen.Linted, root ast.Expr, pos token.Pos, checker, msg string) ast.Expr {
@@ -1103,5 +1155,43 @@ func runShadowed(meta *common.Meta, seed int64, outDir string) {
 		meta.Fail("C12/"+f.checker+"/shadowed-builtin",
 			fmt.Sprintf("%s reports %q on `%s` where len/cap are user functions: observed %s", f.checker, f.text, f.expr, m.Orig),
 			map[string]interface{}{"expr": f.expr, "prologue": prologue, "message": f.text, "input": m.Input, "observed": m.Orig, "claimed": m.Case.Expect})
+	}
+}
+
+// ---------------------------------------------------------------- rule claims on boundary arguments
+
+// runSynthClaims: every pattern of the claim-producing rule groups, as executed (also patterns a change
+// adds), instantiated by the synthesiser; the claimed constant outcome is evaluated over the value domains
+// of the parameter types (invalid runes, invalid UTF-8, nil, empty, negative ...).
+func runSynthClaims(meta *common.Meta, outDir string) {
+	cases, hits, misses := valdiff.Collect(
+		func(g string, r ir.Rule) bool {
+			return (g == "sloppyLen" && strings.Contains(r.ReportTemplate, " is always ")) || (g == "offBy1" && strings.Contains(r.ReportTemplate, "always panics"))
+		}, 1500,
+		func(group string, w linter.Warning, l *exprgen.Linted) (token.Pos, token.Pos, string, string, bool) {
+			switch {
+			case strings.Contains(w.Text, "is always true"):
+				return 0, 0, "", "true", true
+			case strings.Contains(w.Text, "is always false"):
+				return 0, 0, "", "false", true
+			case strings.Contains(w.Text, "always panics"):
+				return 0, 0, "", "panic", true
+			}
+			return 0, 0, "", "", false
+		})
+	meta.Distribution["synth_claim_patterns_hit"] = hits
+	meta.Distribution["synth_claim_patterns_missed"] = misses
+	mm, evals, err := valdiff.Run(filepath.Join(outDir, "valdiff_claims"), cases)
+	if err != nil {
+		meta.Notes = append(meta.Notes, err.Error())
+		meta.TieBroken = append(meta.TieBroken, "claim value-domain program did not build (see notes)")
+		return
+	}
+	meta.Evaluations += evals
+	meta.Distribution["synth_claim_evaluations"] = evals
+	for _, m := range mm {
+		meta.Fail("C12/"+m.Case.Group+"/claim-false-on-boundary-argument",
+			fmt.Sprintf("%s reports %q, but `%s` (pattern %s) evaluates to %s on %s", m.Case.Group, m.Case.Message, m.Case.Expr, m.Case.Pattern, m.Orig, m.Input),
+			map[string]interface{}{"pattern": m.Case.Pattern, "expr": m.Case.Expr, "message": m.Case.Message, "arguments": m.Input, "observed": m.Orig, "claimed": m.Case.Expect})
 	}
 }
